@@ -24,29 +24,41 @@ EXPLANATION = (
 def _uninit_differential(rep):
     """Reads of uninitialised automatic storage: the same driver is built twice, with every automatic variable that has no
     initialiser filled with a byte pattern resp. with zeros (gcc -ftrivial-auto-var-init=pattern|zero); a program whose
-    observable results differ between the two builds reads such a variable.  Applied to the DIMACS reader (the one entry
-    point that parses into locals through sscanf): digest over every parsed graph of the grammar enumerator."""
+    observable results differ between the two builds reads such a variable.  Applied to the DIMACS reader (digest over every
+    parsed graph of the grammar enumerator) and to the exact / approximate entry points (digest over returned weight and
+    number of emitted cycles - the part of the result that does not depend on the heap layout)."""
     import subprocess, time
-    t0 = time.time()
-    outs = {}
-    for mode in ("pattern", "zero"):
-        b = native.build("uninit_%s_e3_dimacs" % mode, source=os.path.join(VERIF, "harness/e3_dimacs.cpp"),
-                         flags=("-ftrivial-auto-var-init=%s" % mode,), opt="-O1")
-        p = subprocess.run([b, "--shard", "0/1"], stdout=subprocess.PIPE, stderr=subprocess.STDOUT, text=True, errors="replace", timeout=1200,
+    from concurrent.futures import ThreadPoolExecutor
+    targets = [("e3_dimacs", "read_dimacs_from_file", ["--shard", "0/1"], ("-ltbb", "-lboost_timer")),
+               ("e3_exact", "exact entry points", ["--shard", "0/6"], ("-ltbb", "-lboost_timer")),
+               ("e3_approx", "approximate entry points", ["--shard", "0/6", "--only", "approx"], ("-ltbb", "-lboost_timer"))]
+    def one(job):
+        name, site, args, libs, mode = job
+        b = native.build("uninit_%s_%s" % (mode, name), source=os.path.join(VERIF, "harness/%s.cpp" % name),
+                         flags=("-ftrivial-auto-var-init=%s" % mode,), opt="-O1", libs=libs)
+        p = subprocess.run([b] + args, stdout=subprocess.PIPE, stderr=subprocess.STDOUT, text=True, errors="replace", timeout=2400,
                            env=dict(os.environ, VERIF_TIER="quick"))
         dg = [l for l in p.stdout.splitlines() if l.startswith("VP-DIGEST ")]
-        outs[mode] = dg[0] if dg and p.returncode in (0, 1) else "no digest (exit %s)" % p.returncode
-    viol = []
-    if outs["pattern"] != outs["zero"] and all(o.startswith("VP-DIGEST") for o in outs.values()):
-        viol.append(dict(site="read_dimacs_from_file", kind="uninitialised-read",
-                         what="the graphs parsed from the enumerated DIMACS texts differ between a build that fills uninitialised automatic variables with a byte pattern and one that fills them with zeros (%s vs %s): an uninitialised local is read" % (outs["pattern"], outs["zero"]),
-                         no_input=True, data=dict(digests=outs, how="g++ -ftrivial-auto-var-init=pattern|zero, harness/e3_dimacs.cpp --shard 0/1")))
-    und = [o for o in outs.values() if not o.startswith("VP-DIGEST")]
-    rep.add_bounded(dict(driver="e3_dimacs[auto-var-init differential]", status="undecided" if und else ("violated" if viol else "ok"), reason="; ".join(und) if und else None,
-                         evaluations=2, distinct=2, violations=viol, wall_s=round(time.time() - t0, 2),
-                         rule="two builds of the DIMACS grammar enumerator (uninitialised automatics = 0xFE.. pattern / = 0), digests of all parsed graphs compared",
-                         functions={"read_dimacs_from_file (uninitialised reads)": "bounded(grammar enumerator, quick set)"}, assumptions=["gcc's -ftrivial-auto-var-init covers automatic variables only"],
-                         entry_points=["read_dimacs_from_file"], samples=[outs["pattern"]]))
+        return (name, mode), (dg[-1] if dg and p.returncode in (0, 1) else "no digest (exit %s)" % p.returncode)
+    t0 = time.time()
+    jobs = [(n, s_, a, l, m) for (n, s_, a, l) in targets for m in ("pattern", "zero")]
+    with ThreadPoolExecutor(len(jobs)) as ex:
+        outs = dict(ex.map(one, jobs))
+    viol, und = [], []
+    for name, site, args, libs in targets:
+        pz = (outs[(name, "pattern")], outs[(name, "zero")])
+        if not all(o.startswith("VP-DIGEST") for o in pz):
+            und.append("%s: %s / %s" % (name, pz[0], pz[1]))
+        elif pz[0] != pz[1]:
+            viol.append(dict(site=site, kind="uninitialised-read",
+                             what="the observable results of %s differ between a build that fills uninitialised automatic variables with a byte pattern and one that fills them with zeros (%s vs %s): an uninitialised local is read" % (name, pz[0], pz[1]),
+                             no_input=True, data=dict(digests={"pattern": pz[0], "zero": pz[1]}, how="g++ -ftrivial-auto-var-init=pattern|zero, harness/%s.cpp %s" % (name, " ".join(args)))))
+    rep.add_bounded(dict(driver="auto-var-init differential[e3_dimacs,e3_exact,e3_approx]", status="undecided" if und else ("violated" if viol else "ok"), reason="; ".join(und) if und else None,
+                         evaluations=len(jobs), distinct=len(targets), violations=viol, wall_s=round(time.time() - t0, 2),
+                         rule="each driver built twice (uninitialised automatics = byte pattern / = 0) and run on the same inputs; digests of the layout-independent results compared",
+                         functions={"read_dimacs_from_file, exact and approximate entry points (uninitialised reads)": "bounded(quick sets, one shard)"},
+                         assumptions=["gcc's -ftrivial-auto-var-init covers automatic variables only (not heap storage)"],
+                         entry_points=["read_dimacs_from_file", "mcb_sva_*", "approx_mcb_sva_*"], samples=[outs[(targets[0][0], "pattern")]]))
 
 
 def run(rep):
